@@ -40,6 +40,10 @@ CHECKS = {
    technique="explicit-state exploration: all builder call histories <= depth 5/6 (stateless) + BFS with abstract-state dedup to depth 7/9, real SourceMapper vs list model, independent VLQ decoder",
    text="Every operation history up to the bound over a 25-call alphabet is executed on the real builder in lock-step with a reference model and the emitted mappings are decoded by an independent Source Map v3 decoder; every VLQ delta in [-2^20,2^20] is encoded through the public API and decoded. Exhaustive within the bound, which is where delta-reset, name carry-over and continuation-bit bugs live.",
    note="trusted: the 60-line decoder and list model in xmc/ref/rmap.go; bounds: depth, 5 positions, 2 names, ASCII strings"),
+ "C16": dict(cat="model_checking", sec="4 C16",
+   technique="explicit-state exploration of the parser's context stack: every chain of <= 3/4/5 nesting constructors x leaf bodies parsed with recording statement+expression interceptors, per-invocation comparison with the reference nesting model of the harness unparser; final-state clause over all token sequences <= 4/5, all byte strings <= 4, every truncation and single-token deletion of every nested program",
+   text="Every nesting chain up to the depth bound over 17 nesting constructors (blocks and functions in every statement and expression position) is parsed by the real parser with interceptors that query IsInFunction()/CurrentContext() at every parse step; each answer is compared with the nesting path the reference unparser recorded for that token. Every malformed input of the bounded universes (all short token/byte sequences, every truncation/deletion of every nested program) must leave the context at top level. Push/pop imbalances need a specific exit path at a specific depth; the enumeration drives every construct at every depth <= d and every early exit.",
+   note="trusted: harness unparser nesting paths (statement structure cross-checked against goja by C02), offset mapping of token positions (LF lines, byte columns)"),
 }
 NA_REASON = {}
 def main():
